@@ -660,7 +660,11 @@ func runMedian(c c20Ewma) (msg string) {
 			msg = fmt.Sprintf("panic in estimator %+v: %v", c, r)
 		}
 	}()
-	d := wrapDeep(decor.MovingAverageETA(decor.ET_STYLE_GO, decor.NewMedian(), nil), c.Wrap)
+	var med ewma.MovingAverage = decor.NewMedian()
+	if len(c.Samples)%2 == 1 {
+		med = nil // a nil estimator selects the library default, the same median of three
+	}
+	d := wrapDeep(decor.MovingAverageETA(decor.ET_STYLE_GO, med, nil), c.Wrap)
 	var base decor.Decorator = d
 	for {
 		w, ok := base.(decor.Wrapper)
